@@ -309,6 +309,32 @@ func TestC02Pinned(t *testing.T) {
 			Del: delivery{Mode: "write", Chunks: []int{3 << 20}, Flush: []bool{false}}, R: rcfg{Conc: 4, WriteTo: true}}
 		pinned(t, "C02", "C02/roundtrip", c, runC02)
 	}
+	// legacy, incompressible blocks that are almost full (their compressed form does not fit a block-sized buffer)
+	for _, n := range []int{8<<20 - 1, 8356000, 16<<20 - 1, 8<<20 + 8370000} {
+		c := c02Case{Opts: wopts{BS: 4, Conc: 1, Legacy: true, Level: levels[n%3]}, Data: gen.Data{Segs: []gen.Seg{{K: "rand", N: n, S: uint64(n)}}},
+			Del: delivery{Mode: []string{"write", "readfrom"}[n%2]}, R: rcfg{Conc: 1, WriteTo: n%2 == 0, Sizes: []int{1 << 20}}}
+		pinned(t, "C02", "C02/roundtrip", c, runC02)
+	}
+	// uniformly random symbols over a small alphabet, at the edge of compressibility: full blocks in which the compressor
+	// finds matches only after its output has outgrown the block (it then gives up with an error, not with "incompressible")
+	for _, a := range []struct {
+		alpha int
+		level uint32
+	}{{10, 0}, {11, 0}, {12, 0}, {20, levels[1]}, {26, levels[5]}, {32, levels[9]}} {
+		for _, bs := range []int{4, 5} {
+			nb := 48
+			if bs == 5 {
+				nb = 12
+			}
+			c := c02Case{Opts: wopts{BS: bs, Conc: 1 + a.alpha%2, ContentSum: true, Level: a.level}, Data: gen.Data{Segs: []gen.Seg{{K: "text", N: nb * int(blockSizes[bs]), S: uint64(a.alpha), P: a.alpha}}},
+				Del: delivery{Mode: "write"}, R: rcfg{Conc: 1, Sizes: []int{1 << 20}}}
+			pinned(t, "C02", "C02/roundtrip", c, runC02)
+		}
+	}
+	// the witness of the known finding (KNOWN_FINDINGS.jsonl): legacy, Write(3 bytes), Flush, Write(2 bytes), Close. Pinned so that
+	// every run meets it (and prints its KNOWN-FINDING line) whatever the random part draws
+	pinned(t, "C02", "C02/roundtrip", c02Case{Opts: wopts{BS: 4, Conc: 1, Legacy: true}, Data: gen.Data{Segs: []gen.Seg{{K: "raw", N: 5, Raw: []byte("abcde")}}},
+		Del: delivery{Mode: "write", Chunks: []int{3}, Flush: []bool{true}}, R: rcfg{Conc: 1, Sizes: []int{4096}}}, runC02)
 	// 4 MiB blocks
 	c := c02Case{Opts: wopts{BS: 7, ContentSum: true, Conc: 2}, Data: gen.Data{Segs: []gen.Seg{{K: "text", N: 4<<20 + 1, S: 5, P: 4}}},
 		Del: delivery{Mode: "write", Chunks: []int{4 << 20}, Flush: []bool{false}}, R: rcfg{Conc: 2, WriteTo: true}}
